@@ -659,9 +659,7 @@ pub fn __verif_wait_for_edges() -> Vec<(u64, u64)> {
 pub mod __verif {
     use std::future::Future;
     use std::io::Write;
-    use std::pin::Pin;
     use std::sync::{Mutex, OnceLock};
-    use std::task::{Context, Poll};
 
     struct Sink {
         file: std::fs::File,
@@ -691,22 +689,39 @@ pub mod __verif {
         }
     }
 
-    /// 0 = Ok / unit, 1 = Err
-    pub trait Outcome {
-        fn code(&self) -> u64;
+    /// Outcome code of a hook's value, whatever its type (autoref specialisation: the most specific impl that applies wins):
+    /// `Result<bool, _>` -> 0 Ok(true) / 1 Ok(false) / 2 Err;  any other `Result` -> 0 Ok / 1 Err;  anything else -> 0.
+    pub struct Probe<'a, T>(pub &'a T);
+    pub trait CodeRun {
+        fn verif_code(&self) -> u64;
     }
-    impl Outcome for () {
-        fn code(&self) -> u64 {
-            0
+    impl<E> CodeRun for &&Probe<'_, Result<bool, E>> {
+        fn verif_code(&self) -> u64 {
+            match self.0 {
+                Ok(true) => 0,
+                Ok(false) => 1,
+                Err(_) => 2,
+            }
         }
     }
-    impl<A, B> Outcome for Result<A, B> {
-        fn code(&self) -> u64 {
-            if self.is_ok() {
+    pub trait CodeRes {
+        fn verif_code(&self) -> u64;
+    }
+    impl<A, E> CodeRes for &Probe<'_, Result<A, E>> {
+        fn verif_code(&self) -> u64 {
+            if self.0.is_ok() {
                 0
             } else {
                 1
             }
+        }
+    }
+    pub trait CodeAny {
+        fn verif_code(&self) -> u64;
+    }
+    impl<T> CodeAny for Probe<'_, T> {
+        fn verif_code(&self) -> u64 {
+            0
         }
     }
 
@@ -715,6 +730,8 @@ pub mod __verif {
             "Start"
         } else if expr.contains("on_stop") {
             "Stop"
+        } else if expr.contains("on_run") {
+            "Run"
         } else if expr.contains("handle_message") {
             "Handler"
         } else {
@@ -722,8 +739,8 @@ pub mod __verif {
         }
     }
 
-    /// one awaited hook: `enter` logs <Hook>Enter, `exit` logs <Hook>Exit with the outcome; a hook that unwinds logs
-    /// <Hook>Unwind instead
+    /// one hook invocation: `enter` logs <Hook>Enter, `exit` logs <Hook>Exit (RunEnd for on_run) with the outcome code; a
+    /// hook that unwinds logs <Hook>Unwind, a hook future dropped unfinished logs <Hook>Drop
     pub struct HookGuard {
         hook: &'static str,
         id: u64,
@@ -739,7 +756,7 @@ pub mod __verif {
                 } else if expr.contains("true)") {
                     1
                 } else {
-                    2 // a variable: reported by the caller through `stop_flag`
+                    2 // a variable: not known here
                 }
             } else {
                 0
@@ -749,44 +766,18 @@ pub mod __verif {
         }
         pub fn exit(mut self, code: u64) {
             self.done = true;
-            emit(&format!("{}Exit", self.hook), self.id, code, 0);
+            if self.hook == "Run" {
+                emit("RunEnd", self.id, code, 0);
+            } else {
+                emit(&format!("{}Exit", self.hook), self.id, code, 0);
+            }
         }
     }
     impl Drop for HookGuard {
         fn drop(&mut self) {
             if !self.done {
-                emit(&format!("{}Unwind", self.hook), self.id, 0, 0);
-            }
-        }
-    }
-
-    /// the on_run branch of the select: logs RunEnd when an invocation completes (0 = Ok(true), 1 = Ok(false), 2 = Err)
-    pub struct RunFut<F> {
-        id: u64,
-        inner: Pin<Box<F>>,
-    }
-    impl<F> RunFut<F> {
-        pub fn new(identity: &crate::Identity, inner: F) -> RunFut<F> {
-            RunFut { id: identity.id, inner: Box::pin(inner) }
-        }
-    }
-    impl<F, E> Future for RunFut<F>
-    where
-        F: Future<Output = Result<bool, E>>,
-    {
-        type Output = Result<bool, E>;
-        fn poll(mut self: Pin<&mut Self>, cx: &mut Context<'_>) -> Poll<Self::Output> {
-            match self.inner.as_mut().poll(cx) {
-                Poll::Ready(r) => {
-                    let code = match &r {
-                        Ok(true) => 0,
-                        Ok(false) => 1,
-                        Err(_) => 2,
-                    };
-                    emit("RunEnd", self.id, code, 0);
-                    Poll::Ready(r)
-                }
-                Poll::Pending => Poll::Pending,
+                let what = if std::thread::panicking() { "Unwind" } else { "Drop" };
+                emit(&format!("{}{}", self.hook, what), self.id, 0, 0);
             }
         }
     }
